@@ -1,5 +1,6 @@
 import PGT.Props.C11
 import PGT.Proofs.PathUnique
+import PGT.Proofs.ExclusionPrune
 /-
 C11, continued (proofs: `Proofs/PathUnique.lean`): the path of an occurrence is the root name followed by the proto field names
 on the way (embedded fields keep the parent's path; a map's value shares the map field's keys); paths of different occurrences
@@ -91,5 +92,65 @@ theorem C11_exclude_view (cfg : Config) (p : String) :
     viewOf { cfg with excludeFields := p :: cfg.excludeFields } =
     { viewOf cfg with excluded := fun k => keyed p k || (viewOf cfg).excluded k } := by
   intros; apply PGT.Proofs.PathUnique.viewOf_exclude_cons <;> assumption
+
+-- exclusion is surgical on the IR, node by node, and for the converters (proofs: `Proofs/ExclusionPrune.lean`): with `p` added to
+-- exclude_fields the build of a root gives `prune p m` – the IR without the nodes whose path is `p`, at every depth, nothing else
+-- changed (trees without embedded fields, `p` addressing by path; both shown necessary by counterexamples there) –, the schema has no
+-- entry for the excluded attribute, CopyTo / CopyFrom of the pruned IR agree with the unpruned ones outside the excluded attribute / field.
+section
+open PGT.Proofs.ExclusionPrune
+/-- the generator's entry point for one selected root -/
+theorem C11_exclusion_prunes_root (cfg : Config) (p : String) (req : Request) (desc : MsgD) (m : Msg)
+    (hne : NoEmbed req desc = true)
+    (htn : typeFree p (ctxKeys (defaultFuel req) req (rootCtx desc)) = true)
+    (h : buildRoot cfg req desc = .ok (some m)) :
+    buildRoot { cfg with excludeFields := p :: cfg.excludeFields } req desc = .ok (some (prune p m)) := by
+  intros; apply PGT.Proofs.ExclusionPrune.exclusion_prunes_root <;> assumption
+
+/-- **C11, converters, excluded field at any depth.** `cfg'` = `cfg` plus the path `p` in `exclude_fields`; no embedded
+fields in the tree; `p` addresses by path only; the root builds to `m` without the exclusion. Then it builds to
+`prune p m` with it, and - attribute names pairwise distinct and no nested message emptied, along the way
+(`distinctNames`, `deepOkFs`: decidable on `m`) - both converters of `prune p m` succeed whenever those of `m` do, with
+results that agree except under the excluded attribute / in the excluded Go field. -/
+theorem C11_exclusion_surgical_deep (cfg : Config) (p : String) (req : Request) (desc : MsgD) (m : Msg)
+    (hne : NoEmbed req desc = true)
+    (htn : typeFree p (ctxKeys (defaultFuel req) req (rootCtx desc)) = true)
+    (hb : buildRoot cfg req desc = .ok (some m)) :
+    buildRoot { cfg with excludeFields := p :: cfg.excludeFields } req desc = .ok (some (prune p m)) ∧
+    (distinctNames m.fields = true → deepOkFs p m.fields = true → ∀ obj tf r1, copyTo m obj tf = .ok r1 →
+      ∃ r2, copyTo (prune p m) obj tf = .ok r2 ∧ OffV (allDroppedAttrs p m.fields) r1.tf r2.tf) ∧
+    (∀ ov tf obj r1, copyFrom ov m tf obj = .ok r1 →
+      ∃ r2, copyFrom ov (prune p m) tf obj = .ok r2 ∧ OffG (allDroppedGo p m.fields) r1.obj r2.obj) := by
+  intros; apply PGT.Proofs.ExclusionPrune.exclusion_surgical_deep <;> assumption
+
+/-- **the excluded field has no attribute in the schema** (any depth: `fs` is the field list that contains it) -/
+theorem C11_schema_excluded_absent (p : String) (fs : List Field) (hs : attrsSeparate p fs = true) :
+    ∀ k ∈ droppedAttrs p fs, (schemaAttrs (pruneFs p fs)).lookup k = none := by
+  intros; apply PGT.Proofs.ExclusionPrune.schema_excluded_absent <;> assumption
+
+/-- **CopyTo blocks of a pruned field list** (any depth: `fs` is the field list of the message that contains the excluded
+field): if the blocks of `fs` succeed from `st`, so do the blocks of `pruneFs p fs`; the attribute of the excluded field
+is not touched (it holds what the target held before), every other attribute gets the same value. -/
+theorem C11_copyTo_prune_level (p : String) (fs : List Field) (hl : levelOnly p fs = true) (hs : attrsSeparate p fs = true)
+    (obj : GoVal) (atys : Option (List (String × TfTy))) (st s1 : ToSt) (h : copyToFields fs obj atys st = .ok s1) :
+    ∃ s2, copyToFields (pruneFs p fs) obj atys st = .ok s2 ∧
+      (∀ key, key ∉ droppedAttrs p fs → s2.attrs.lookup key = s1.attrs.lookup key) ∧
+      (∀ key, key ∈ droppedAttrs p fs → s2.attrs.lookup key = st.attrs.lookup key) := by
+  intros; apply PGT.Proofs.ExclusionPrune.copyToFields_prune <;> assumption
+
+/-- **CopyFrom blocks of a pruned field list** (no children of nullable embedded messages - as in every IR built from a
+tree without embedded fields, `built_plain`): if the blocks of `fs` succeed, so do those of `pruneFs p fs`, with the same
+value in every Go field other than the one the excluded field's block assigns (the field, or the holder of its oneof
+group); a Go field that no surviving block assigns keeps the value of the target. -/
+theorem C11_copyFrom_prune_level (ov : List (String × String)) (p : String) (fs : List Field) (hl : levelOnly p fs = true)
+    (hne : ∀ f ∈ fs, f.info.parentIsOptionalEmbed = false)
+    (attrs : Option (List (String × TfVal))) (st s1 : FromSt) (h : copyFromFields ov fs attrs st = .ok s1) :
+    ∃ s2, copyFromFields ov (pruneFs p fs) attrs st = .ok s2 ∧
+      (∀ name, name ∉ droppedGo p fs → s2.obj.field? name = s1.obj.field? name) ∧ (IsStruct s2.obj ↔ IsStruct s1.obj) ∧
+      (IsStruct st.obj → ∀ name, (∀ g ∈ fs, dropped p g.info = false → name ∉ writeKeys g.info) →
+        s2.obj.field? name = st.obj.field? name) := by
+  intros; apply PGT.Proofs.ExclusionPrune.copyFromFields_prune <;> assumption
+
+end
 
 end PGT.Props.C11
